@@ -111,4 +111,15 @@ def fetch (s : State) : Except Err (Ev × State) :=
   | e :: z => .ok (e, { s with zero := z, len := s.len - 1 })
   | [] => scan (fuelFor s) s
 
+/-- `CQueue::next_time`: timestamp of the event the next `fetch_next` would return; the queue is
+    left untouched (the Rust loop scans with local copies of `head`/`t1`). -/
+def nextTime (s : State) : Option Nat :=
+  if s.len = 0 then none else
+  match s.zero with
+  | e :: _ => some e.time
+  | [] =>
+    match scan (fuelFor s) s with
+    | .ok (e, _) => some e.time
+    | .error _ => none
+
 end CQ
